@@ -118,7 +118,10 @@ func propC11(e *Env) {
 	fedDone := false
 	r.feed("log", lines, &fedDone)
 	// exporter tasks
-	type sample struct{ series string; v float64 }
+	type sample struct {
+		series string
+		v      float64
+	}
 	exportsDone := 0
 	nExporters := 0
 	var problems []string
